@@ -377,6 +377,10 @@ func (e *Env) modelDecodeOne(l *facts.Level, rule string) *decodeOneModel {
 		switch {
 		case isNegOf(last, shape):
 			ri.Kind = "malformed"
+		case isShortToken(last, str):
+			// len(token) < k with k <= 3: no well-formed token (non-empty name, ':', non-empty value) is that short,
+			// so this is a (redundant) case of the shape test
+			ri.Kind = "malformed"
 		case last.Key() == dup.Key():
 			ri.Kind = "duplicate"
 		case dIs != nil && last.Key() == ir.NotCond(dIs).Key():
@@ -533,6 +537,28 @@ func (e *Env) externFunc(from *types.Package, path, name string) *types.Func {
 		}
 	}
 	return nil
+}
+
+// isShortToken: g is  len(tok) < k  or  len(tok) <= k-1  with k <= 3.
+func isShortToken(g, tok *ir.Term) bool {
+	if g.Op != ir.OBin || len(g.Args) != 2 {
+		return false
+	}
+	l, k := g.Args[0], g.Args[1]
+	if l.Op != ir.OBuiltin || l.Str != "len" || len(l.Args) != 1 || l.Args[0].Key() != tok.Key() {
+		return false
+	}
+	v, ok := int64Const(k)
+	if !ok {
+		return false
+	}
+	switch g.Str {
+	case "<":
+		return v <= 3
+	case "<=":
+		return v <= 2
+	}
+	return false
 }
 
 // isNegOf: g is the negation of one of the conditions.
